@@ -368,3 +368,78 @@ def fn_de_iterate(fn):
         else:
             raise Untranslatable(f"DE.iterate: `{st}`")
     raise Untranslatable("DE.iterate: does not end in `self.p_current.pos_new = self.conv2pos(pos_new); return self.p_current.pos_new`")
+
+
+# ----------------------------------------------------------------------------- GeneticAlgorithmOptimizer.iterate / _crossover
+
+def fn_ga_iterate(fn):
+    if _decs(fn) != ["track_new_pos"]:
+        raise Untranslatable(f"GA.iterate: decorators {_decs(fn)}")
+    b = fn.body
+    u = [U(x) for x in b]
+    want = ["n_ind = len(self.individuals)", "if n_ind == 1:\n    self.p_current = self.individuals[0]\n    return self.p_current.iterate()",
+            "self.sort_pop_best_score()", "rnd_int = random.randint(0, len(self.pop_sorted) - 1)", "self.p_current = self.pop_sorted[rnd_int]",
+            "total_rate = self.mutation_rate + self.crossover_rate", "rand = np.random.uniform(low=0, high=total_rate)"]
+    if u[:7] != want or len(b) != 8 or not isinstance(b[7], ast.If) or U(b[7].test) != "rand <= self.mutation_rate" \
+            or [U(x) for x in b[7].body] != ["return self.p_current.iterate()"]:
+        raise Untranslatable(f"GA.iterate: {u}")
+    cross = [U(x) for x in b[7].orelse]
+    if cross[:1] == ["if not self.offspring_l:\n    self._crossover()"]:
+        refill = "(if g.offspring = [] then gaCrossover cfg g.pop tape else .ok (g.offspring, tape))"
+        cross = cross[1:]
+    elif cross[:1] == ["self._crossover()"]:
+        refill = "((gaCrossover cfg g.pop tape).map (fun x => (g.offspring ++ x.1, x.2)))"
+        cross = cross[1:]
+    else:
+        refill = "(Except.ok (g.offspring, tape) : Except Err (List Pos × Tape))"
+    if cross != ["self.p_current.pos_new = self.offspring_l.pop(0)", "return self.p_current.pos_new"]:
+        raise Untranslatable(f"GA.iterate: crossover branch {cross}")
+    return ("/-- the crossover branch of `GeneticAlgorithmOptimizer.iterate`: refill of the offspring queue, `pop(0)`, the write-back -/\n"
+            "def GA_cross_branch (cfg : GACfg) (g : GASt) (cur : Nat) (tape : Tape) : Except Err (Pos × GASt) :=\n"
+            f"  match {refill} with\n"
+            "  | .error e => .error e\n"
+            "  | .ok x =>\n"
+            "    match x.1 with\n"
+            "    | [] => .error .indexError                -- self.offspring_l.pop(0)\n"
+            "    | o :: rest =>\n"
+            "      match emitVia g.pop cur o x.2 with      -- self.p_current.pos_new = …; return self.p_current.pos_new\n"
+            "      | .error e => .error e\n"
+            "      | .ok y => .ok (y.1, { pop := y.2, offspring := rest })\n\n"
+            "/-- `GeneticAlgorithmOptimizer.iterate` below `track_new_pos` -/\n"
+            "def GA_iterate (cfg : GACfg) (g : GASt) : Except Err (Pos × GASt) :=\n"
+            "  if g.pop.members.length = 1 then gaMutate cfg g 0 g.pop.tape          -- n_ind == 1\n"
+            "  else\n"
+            "    match popSorted g.pop g.pop.tape with                               -- self.sort_pop_best_score()\n"
+            "    | .error e => .error e\n"
+            "    | .ok x1 =>\n"
+            "      match takeInt x1.2 with                                           -- rnd_int = random.randint(0, len(self.pop_sorted) - 1)\n"
+            "      | .error e => .error e\n"
+            "      | .ok x2 =>\n"
+            "        if ¬ x2.1 < g.pop.members.length then .error .valueError\n"
+            "        else\n"
+            "          match takeNpUnif x2.2 with                                    -- rand = np.random.uniform(low=0, high=total_rate)\n"
+            "          | .error e => .error e\n"
+            "          | .ok x =>\n"
+            "            if x.1 ≤ cfg.mutationRate then gaMutate cfg g (x1.1.getD x2.1 0) x.2\n"
+            "            else GA_cross_branch cfg g (x1.1.getD x2.1 0) x.2")
+
+
+def fn_ga_crossover(fn, loop_fn):
+    u = [U(x) for x in fn.body]
+    want = ["fittest_parents = self.fittest_parents()", "n_parents = min(self.n_parents, len(fittest_parents))",
+            "selected_parents = random.sample(fittest_parents, n_parents)"]
+    if fn.decorator_list or u[:3] != want or len(fn.body) != 4 or not isinstance(fn.body[3], ast.For) \
+            or U(fn.body[3].iter) != "range(self.offspring)" or fn.body[3].orelse:
+        raise Untranslatable(f"GA._crossover: {u}")
+    body = [U(x) for x in fn.body[3].body]
+    if body != ["parent_pos_l = [parent.pos_new for parent in selected_parents]", "offspring = self.discrete_recombination(parent_pos_l)",
+                "offspring = self._constraint_loop(offspring)", "self.offspring_l.append(offspring)"]:
+        raise Untranslatable(f"GA._crossover: loop body {body}")
+    fn_de_constraint_loop(loop_fn)          # the same pinned `while True` as DE's
+    return ("/-- one pass of the `for _ in range(self.offspring)` loop of `GeneticAlgorithmOptimizer._crossover`; `again` is the rest of the loop -/\n"
+            "def GA_offspring_round (cfg : GACfg) (parents : List Pos) (again : List Pos → Tape → Except Err (List Pos × Tape))\n"
+            "    (acc : List Pos) (tape : Tape) : Except Err (List Pos × Tape) := do\n"
+            "  let (c, tape) ← takeChoice (parents.headD []).length tape             -- discrete_recombination(parent_pos_l)\n"
+            "  let offspring ← recombine c parents\n"
+            "  let (offspring, tape) ← constraintLoop cfg.member.geo cfg.epsMod (tape.length + 1) offspring tape\n"
+            "  again (acc ++ [offspring]) tape")
